@@ -59,6 +59,8 @@ type c04Case struct {
 	arIRT     int // artifact: 0 same 1 other 2 prefix 3 empty 4 absent 5 previous resolve id (http only)
 	arSigned  bool
 	layout    int
+	methods   []int // confirmation Method per confirmation (index into confMethods)
+	firstFail int   // artifact over HTTP: 0 none; 1 the first back-channel call fails (transport error), 2 answers 503; any further call is answered with the FIRST request's ID
 	noDest    bool // Response carries no Destination (only meaningful when the Response itself is unsigned, layout 1)
 }
 
@@ -67,7 +69,7 @@ func (k c04Case) String() string {
 	for _, f := range k.confs {
 		cs = append(cs, f.kind)
 	}
-	return fmt.Sprintf("P=%s resp=%s conf=[%s] allowIDP=%v validator=%d entry=%d arIRT=%d arSigned=%v layout=%d nodest=%v", c04Sets[k.set].name, k.resp.kind, strings.Join(cs, ","), k.allowIDP, k.validator, k.entry, k.arIRT, k.arSigned, k.layout, k.noDest)
+	return fmt.Sprintf("P=%s resp=%s conf=[%s] allowIDP=%v validator=%d entry=%d arIRT=%d arSigned=%v layout=%d nodest=%v methods=%v firstFail=%d", c04Sets[k.set].name, k.resp.kind, strings.Join(cs, ","), k.allowIDP, k.validator, k.entry, k.arIRT, k.arSigned, k.layout, k.noDest, k.methods, k.firstFail)
 }
 
 func inSet(ids []string, v string) bool {
@@ -162,6 +164,10 @@ func runC04(c *core.Ctx) {
 			k.arIRT = c.Rng.Intn(6)
 		}
 		k.noDest = k.layout == 1 && c.Rng.Intn(3) == 0
+		k.methods = pickConfMethods(c.Rng, len(k.confs))
+		if k.entry == 3 && c.Rng.Intn(4) == 0 {
+			k.firstFail = 1 + c.Rng.Intn(2)
+		}
 		c04Run(c, o, k)
 	}
 }
@@ -194,6 +200,7 @@ func c04Run(c *core.Ctx, o *so.Oracle, k c04Case) {
 	for i, scd := range ael.FindElements("./Subject/SubjectConfirmation/SubjectConfirmationData") {
 		setOrRemoveAttr(scd, "InResponseTo", k.confs[i])
 	}
+	setConfMethods(ael, k.methods)
 	var err error
 	if k.layout == 1 {
 		if ael, err = o.Sign(ael, s1, ""); err != nil {
@@ -268,8 +275,23 @@ func c04Run(c *core.Ctx, o *so.Oracle, k c04Case) {
 					return so.HTTPResponse(500, strings.NewReader("")), nil
 				})
 			}
+			firstID := ""
 			got, perr = so.DeliverArtifactHTTP(sp, ids, cur, func(id string, r *http.Request, body []byte) (*http.Response, error) {
 				resolverCalls++
+				if k.firstFail != 0 {
+					// the first exchange fails; should the SP try again, the answer it gets is the (late) one to the FIRST
+					// request - it does not answer the request just issued and must not be accepted
+					if resolverCalls == 1 {
+						firstID = id
+						if k.firstFail == 1 {
+							return nil, errors.New("injected: connection reset by peer")
+						}
+						return so.HTTPResponse(503, strings.NewReader("")), nil
+					}
+					sent = mkAR(firstID, "")
+					arBound = firstID == id
+					return so.OK200(sent)
+				}
 				if id == "" {
 					c.Violation("C04/artifact/resolve-without-id", "ArtifactResolve sent without ID: "+string(trunc(body, 300)), nil)
 				}
@@ -285,6 +307,14 @@ func c04Run(c *core.Ctx, o *so.Oracle, k c04Case) {
 	replay := map[string]any{"case": k.String(), "message": string(sent), "possible_ids": ids}
 	if p {
 		c.Violation("C04/panic/"+frame, fmt.Sprintf("panic %v", pv), replay)
+		return
+	}
+	if k.entry == 3 && k.firstFail != 0 {
+		c.Count("artifact_first_exchange_failed")
+		if perr == nil {
+			c.Violation("C04/accepted-unsolicited/artifact-not-bound/answer-to-earlier-resolve", fmt.Sprintf("accepted an ArtifactResponse that answers an earlier ArtifactResolve (first exchange failed, %d calls) (%s)", resolverCalls, k), replay)
+		}
+		c.Nontrivial(k.String())
 		return
 	}
 	priv := ""
